@@ -323,4 +323,23 @@ def gen_trees(mod):
            rets={'self.enforce(rule, target, creds, do_raise, exc, *args, **kwargs)': 0},
            raises={'PolicyNotRegistered(rule)': 0})
     out += f.translate(find_func(enf.body, 'authorize').body)
+
+    # ---- Enforcer._handle_deprecated_rule
+    fr = 'self.file_rules[default.deprecated_rule.name]'
+    f = Fn('deprecated_tree',
+           atoms={'default.deprecated_rule.name == default.name': 0,
+                  'default.deprecated_rule.name in self.file_rules': 1,
+                  fr + '.check == default.deprecated_rule.check': 2,
+                  "str(%s.check) == 'rule:%%s' %% default.name" % fr: 3,
+                  'default.name in self.file_rules.keys()': 4,
+                  'default.name in self.file_rules': 4,
+                  'self.conf.oslo_policy.enforce_new_defaults': 5,
+                  'default.deprecated_rule.check_str == default.check_str': 6,
+                  'self.suppress_deprecation_warnings': 7,
+                  'self.suppress_default_change_warnings': 8},
+           rets={'default.check': 0, fr + '.check': 1,
+                 'OrCheck([default.check, default.deprecated_rule.check])': 2},
+           raises={},
+           ignore=('deprecated_reason =', 'deprecated_since =', 'deprecated_msg =', 'warnings.warn('))
+    out += f.translate(find_func(enf.body, '_handle_deprecated_rule').body)
     return out
